@@ -79,6 +79,10 @@ void flush_out()
     g_out.clear();
 }
 
+// TLC integers are 32-bit: a value outside +-2*10^9 (only garbage read by a defective implementation can be
+// that large here) is logged as the nearest bound, which no expected value ever equals
+long clamp32(long v) { return v > 2000000000L ? 2000000000L : (v < -2000000000L ? -2000000000L : v); }
+
 struct Ev {
     explicit Ev(char const* op)
     {
@@ -96,7 +100,7 @@ struct Ev {
     Ev& num(char const* k, long v)
     {
         key(k);
-        g_out += std::to_string(v);
+        g_out += std::to_string(clamp32(v));
         return *this;
     }
     Ev& flag(char const* k, bool v)
@@ -122,7 +126,7 @@ struct Ev {
         for (auto x : v) {
             if (!first) { g_out += ','; }
             first = false;
-            g_out += std::to_string(long(x));
+            g_out += std::to_string(clamp32(long(x)));
         }
         g_out += ']';
         return *this;
@@ -916,6 +920,10 @@ void* work(void* p)
     ss.ss_sp   = altstack;
     ss.ss_size = sizeof(altstack);
     sigaltstack(&ss, nullptr);
+    sigset_t alrm;
+    sigemptyset(&alrm);
+    sigaddset(&alrm, SIGALRM);
+    pthread_sigmask(SIG_UNBLOCK, &alrm, nullptr);
     struct sigaction sa {};
     sa.sa_handler = on_trap;
     sa.sa_flags   = SA_NODEFER | SA_ONSTACK;
@@ -952,6 +960,11 @@ void* work(void* p)
 int main(int argc, char** argv)
 {
     Args a{argc, argv, 2};
+    // SIGALRM (watchdog) must reach the worker thread, whose jump buffer the handler uses: block it here
+    sigset_t alrm;
+    sigemptyset(&alrm);
+    sigaddset(&alrm, SIGALRM);
+    pthread_sigmask(SIG_BLOCK, &alrm, nullptr);
     pthread_attr_t at;
     pthread_attr_init(&at);
     pthread_attr_setstacksize(&at, 1 << 22);
